@@ -19,7 +19,7 @@ func init() {
 		Explanation: "Equality of the streams produced by different strategies is NOT decided (it needs executing module graphs over schedules and cache histories). Decided are necessary conditions: " +
 			"(R1) nothing that reaches a client stream, a cache file or a store depends on Go map iteration order: every map-range loop reachable from block processing, the tier-2 job, the cached-output walker, store flush/merge/save and the squasher is per-key commutative, sorted before use, or listed with a reason; " +
 			"(R2) every cache location is derived from the module hash (never the module name), so a changed module cannot be served its predecessor's outputs; " +
-			"(R3) a tier-2 job replaces the block stream by the clocks of cached outputs only when no module that still has to run executes on every block: canSkipBlockSource refuses for a required module that reads the block source, that reads only the clock, or that has only a params input — the same never-skip conditions the executor (canSkipExecution) uses.; (R4) the bitmaps of a cached block-index file, shared by every filtered module of a request, are never mutated (mutating bitmap methods only on Clone()/New() results), so the run/skip decisions taken from a cached index equal those taken on the fly when no index is cached. (R5) a cached-output file object is flagged loaded only after a successful load, so a file that did not exist yet when the walker pre-loaded it is read again instead of being served as an empty segment. (R6) a partial store is merged into the full store standing exactly at the partial's first block (getStore(range.StartBlock), which reuses the in-memory store only at that block), so skipping segments whose snapshots are already cached cannot merge onto a stale store.",
+			"(R3) a tier-2 job replaces the block stream by the clocks of cached outputs only when no module that still has to run executes on every block: canSkipBlockSource refuses for a required module that reads the block source, that reads only the clock, or that has only a params input — the same never-skip conditions the executor (canSkipExecution) uses.; (R4) the bitmaps of a cached block-index file, shared by every filtered module of a request, are never mutated (mutating bitmap methods only on Clone()/New() results), so the run/skip decisions taken from a cached index equal those taken on the fly when no index is cached. (R5) a cached-output file object is flagged loaded only after a successful load, so a file that did not exist yet when the walker pre-loaded it is read again instead of being served as an empty segment. (R6) a partial store is merged into the full store standing exactly at the partial's first block (getStore(range.StartBlock), which reuses the in-memory store only at that block), so skipping segments whose snapshots are already cached cannot merge onto a stale store. (R7) the loops that execute a block's modules, apply and export their results, flush/reset/save stores, feed and close the caches and run the hooks all run to their bound: the only early ways out are an error return or a panic, so nothing is silently left unprocessed on one strategy and processed on another.",
 		NotCovered:  "That parallel, cached and linear strategies compute equal payloads; that store reads at block N equal a sequential run (C02/C09 cover the store-side structural parts).",
 		Assumptions: []string{"WASM modules are deterministic functions of their inputs", "readers of map-encoded files rebuild a map (file equality is content equality, not byte equality)"},
 	})
@@ -47,6 +47,19 @@ func runC01(p *core.Prog, r *core.Report) {
 	checkSharedBitmaps(p, r, "C01.R4")
 	r.Guard("C01.R6", "squash-base", "merge base", func() { checkSquashBase(p, r, "C01.R6") })
 	r.Guard("C01.R5", "execout.File.Load", "a failed load is never remembered as loaded", func() { checkExecoutLoadedFlag(p, r, "C01.R5") })
+	r.Guard("C01.R7", "visits-all", "no silent truncation", func() {
+		n := checkNoSilentTruncation(p, r, "C01.R7", []loopSite{
+			{pkgPipe, "Pipeline.executeModules", nil}, {pkgPipe, "Pipeline.applyExecutionResult", nil}, {pkgPipe, "Stores.flushStores", nil},
+			{pkgPipe, "Stores.resetStores", nil}, {pkgPipe, "Stores.saveStoresSnapshots", nil}, {pkgPipe, "returnModuleDataOutputs", nil},
+			{pkgPipe, "toRPCDeltas", nil}, {pkgCache, "Engine.HandleFinal", nil}, {pkgCache, "Engine.EndOfStream", nil}, {pkgCache, "Engine.NewBuffer", nil},
+			{pkgPipe, "Pipeline.BuildModuleExecutors", nil}, {pkgPipe, "Pipeline.runPostJobHooks", nil}, {pkgPipe, "Pipeline.runPreBlockHooks", nil},
+			{pkgPipe, "Pipeline.OnStreamTerminated", nil}, {pkgPipe, "Pipeline.cleanUpModuleExecutors", nil}, {pkgExecout, "File.ExtractClocks", nil},
+			{pkgStage, "Stages.multiSquash", nil}, {pkgPipe, "Pipeline.handleStepNew", nil},
+		})
+		if n < 15 {
+			core.Undecide("only %d loops examined", n)
+		}
+	})
 	r.MinInstances("C01.R1", 15)
 	r.MinInstances("C01.R2", 8)
 	r.MinInstances("C01.R4", 4)
